@@ -23,7 +23,10 @@ pub enum SimChoice {
 /// Payload used to unwind out of `main_loop` when the simulator pauses it.
 pub struct SimStop;
 
-type Hook = Box<dyn FnMut(Option<Duration>) -> SimChoice>;
+/// The hook sees the timeout of the `default` arm and — when the receiver is spelled
+/// `<ident>.conn.receiver` — the object behind `<ident>` (the server's whole state), for the
+/// time the server is parked at this `select!`.
+type Hook = Box<dyn FnMut(Option<Duration>, Option<&mut dyn std::any::Any>) -> SimChoice>;
 
 thread_local! {
     static HOOK: RefCell<Option<Hook>> = const { RefCell::new(None) };
@@ -34,11 +37,20 @@ pub fn sim_set_hook(h: Option<Hook>) {
 }
 
 pub fn sim_decide(timeout: Option<Duration>) -> SimChoice {
+    sim_decide_inner(timeout, None)
+}
+
+/// `sim_decide` with the state the receiver belongs to.
+pub fn sim_decide_with<T: std::any::Any>(timeout: Option<Duration>, state: &mut T) -> SimChoice {
+    sim_decide_inner(timeout, Some(state as &mut dyn std::any::Any))
+}
+
+fn sim_decide_inner(timeout: Option<Duration>, state: Option<&mut dyn std::any::Any>) -> SimChoice {
     // Take the hook out while it runs so that it may itself install another.
     let mut h = HOOK
         .with(|c| c.borrow_mut().take())
         .expect("select! reached without a simulator hook");
-    let r = h(timeout);
+    let r = h(timeout, state);
     HOOK.with(|c| {
         let mut b = c.borrow_mut();
         if b.is_none() {
@@ -65,7 +77,42 @@ pub fn sim_recv<T>(r: &Receiver<T>, choice: &SimChoice) -> Result<T, RecvError> 
 /// error (exit 2) rather than guessing.
 #[macro_export]
 macro_rules! select {
+    // the shape the shipped server has: the receiver is a field of the state it was handed
+    (recv($s:ident . conn . receiver) -> $m:pat => $body:block $(,)? default($t:expr) => $dbody:block $(,)?) => {{
+        let __choice = $crate::sim_decide_with(Some($t), &mut *$s);
+        match __choice {
+            $crate::SimChoice::Timeout => $dbody,
+            $crate::SimChoice::Stop => ::std::panic::resume_unwind(Box::new($crate::SimStop)),
+            _ => {
+                let $m = $crate::sim_recv(&$s.conn.receiver, &__choice);
+                $body
+            }
+        }
+    }};
+    (recv($s:ident . conn . receiver) -> $m:pat => $body:expr, default($t:expr) => $dbody:expr $(,)?) => {{
+        let __choice = $crate::sim_decide_with(Some($t), &mut *$s);
+        match __choice {
+            $crate::SimChoice::Timeout => $dbody,
+            $crate::SimChoice::Stop => ::std::panic::resume_unwind(Box::new($crate::SimStop)),
+            _ => {
+                let $m = $crate::sim_recv(&$s.conn.receiver, &__choice);
+                $body
+            }
+        }
+    }};
     (recv($r:expr) -> $m:pat => $body:block $(,)? default($t:expr) => $dbody:block $(,)?) => {{
+        let __choice = $crate::sim_decide(Some($t));
+        match __choice {
+            $crate::SimChoice::Timeout => $dbody,
+            $crate::SimChoice::Stop => ::std::panic::resume_unwind(Box::new($crate::SimStop)),
+            _ => {
+                let $m = $crate::sim_recv(&$r, &__choice);
+                $body
+            }
+        }
+    }};
+    // the same two shapes with expression bodies (`=> msg?,`)
+    (recv($r:expr) -> $m:pat => $body:expr, default($t:expr) => $dbody:expr $(,)?) => {{
         let __choice = $crate::sim_decide(Some($t));
         match __choice {
             $crate::SimChoice::Timeout => $dbody,
